@@ -74,7 +74,7 @@ def handle (ws : List String) : String :=
         | "ageasc" | "agedesc" | "ageascint" | "agedescint" =>
           match (ages.splitOn ",").mapM Frac.parse with
           | some as =>
-            if as.length < tree.size then "bad-ages" else
+            if !(tree.nodes.all (fun x => x.id < as.length)) then "bad-ages" else
             ids (ageIter (ageOf as) (kind == "agedesc" || kind == "agedescint") (kind == "ageasc" || kind == "agedesc") keep t)
           | none => "bad-ages"
         | _ => "bad-kind"
